@@ -5,6 +5,7 @@ import (
 	"encoding/json"
 	"errors"
 	"fmt"
+	"os"
 	"regexp"
 	"sort"
 	"strings"
@@ -204,6 +205,7 @@ type result struct {
 	use   bool
 	// the plan holds a summarize with >1 keys and an input sort direction
 	multiKeyStreaming bool
+	scanFilter        dag.Expr // the filter pushed into the scan, if any
 }
 
 // dropErrorFilters rewrites every filter operator `where F` of an analysed
@@ -294,6 +296,17 @@ func noJoinDirs(seq dag.Seq) {
 	})
 }
 
+func hasStreamingSummarizeWithLimit(seq dag.Seq) (found bool) {
+	walkSeqs(seq, func(seq dag.Seq) {
+		for _, op := range seq {
+			if s, ok := op.(*dag.Summarize); ok && s.Limit > 0 && s.InputSortDir != 0 {
+				found = true
+			}
+		}
+	})
+	return found
+}
+
 func hasStreamingMultiKeySummarize(seq dag.Seq) (found bool) {
 	walkSeqs(seq, func(seq dag.Seq) {
 		for _, op := range seq {
@@ -328,6 +341,9 @@ func runOnePost(seq ast.Seq, src source, optimize bool, prep, post func(dag.Seq)
 		}
 	}
 	res.multiKeyStreaming = hasStreamingMultiKeySummarize(job.Entry())
+	if scan, ok := job.DefaultScan(); ok {
+		res.scanFilter = scan.Filter
+	}
 	if post != nil {
 		post(job.Entry())
 	}
@@ -545,6 +561,18 @@ func runCase(c Case) *vt.Outcome {
 	if err != nil {
 		return &vt.Outcome{Skip: "input-not-writable"}
 	}
+	// A summarize that gets BOTH an input sort direction (from the optimizer)
+	// and a group limit can take the whole process down (nil dereference in
+	// groupby.Aggregator.readSpills, in an operator goroutine, so it cannot be
+	// recovered here): such optimized plans are not executed unless asked for.
+	if os.Getenv("VERIF_C07_RUN_CRASHERS") == "" {
+		probe := prog.NewRuntime(zed.NewContext())
+		if job, err := src.newJob(probe, seq); err == nil && optimizeJob(job) == nil && hasStreamingSummarizeWithLimit(job.Entry()) {
+			probe.Cancel()
+			return &vt.Outcome{Skip: "excluded:C07-streaming-summarize-with-limit-crash"}
+		}
+		probe.Cancel()
+	}
 	plain, opt := runBoth(seq, src, nil)
 	if plain.stage == "analyze" {
 		if errors.Is(plain.err, errNoDefaultScan) {
@@ -741,15 +769,16 @@ func runCase(c Case) *vt.Outcome {
 			sig = "C07/zng-scanner-pushdown"
 			// Which input values does the scanner lose?  Run only the leading filters over both readers.
 			lp, lz := runOne(seq, &alt, true, leadingFiltersOnly), runOne(seq, src, true, leadingFiltersOnly)
-			if lp.stage == "" && lz.stage == "" && len(prog.MultisetMinus(lz.vals, lp.vals)) == 0 &&
-				prog.AllOnlyNestedFieldName(prog.MultisetMinus(lp.vals, lz.vals), prog.SearchTerms(lz.dag)) {
-				// Known: keyword search vs field names of records inside containers.
-				// The optimized plan over the opaque reader agrees with the plan as
-				// analysed, so everything but the buffer filter has been checked.
-				sig = "C07/zng-bufferfilter/search-fieldname-inside-container"
-				if vt.IsKnown(sig) {
-					o.Known = append(o.Known, sig)
-					return o
+			if lp.stage == "" && lz.stage == "" && len(prog.MultisetMinus(lz.vals, lp.vals)) == 0 {
+				if class := prog.BufferFilterLossClass(lz.scanFilter, prog.MultisetMinus(lp.vals, lz.vals)); class != "" {
+					// Known false negatives of the ZNG buffer filter.  The optimized
+					// plan over the opaque reader agrees with the plan as analysed, so
+					// everything but the buffer filter has been checked.
+					sig = "C07/zng-bufferfilter/" + class
+					if vt.IsKnown(sig) {
+						o.Known = append(o.Known, sig)
+						return o
+					}
 				}
 			}
 		}
@@ -779,7 +808,10 @@ func runCase(c Case) *vt.Outcome {
 func leadingFiltersOnly(seq dag.Seq) {
 	i := 1
 	for i < len(seq) {
-		if _, ok := seq[i].(*dag.Filter); !ok {
+		// (pass operators are removed before adjacent filters are merged)
+		_, isFilter := seq[i].(*dag.Filter)
+		_, isPass := seq[i].(*dag.Pass)
+		if !isFilter && !isPass {
 			break
 		}
 		i++
